@@ -76,7 +76,7 @@ type ofile struct {
 type stats struct {
 	frag, regrow, exhausted, quotaBytes, quotaFiles bool
 	modelHS, hsHole, multi, reuse, partialSector    bool
-	faultSurfaced, poisoned                         bool
+	faultSurfaced, poisoned, split                  bool
 }
 
 type engine struct {
@@ -185,6 +185,7 @@ func (e *engine) apply(st *step) (verr error) {
 		e.spy.curOwner = of.gen
 	}
 	shortBefore := e.spy.short
+	callsBefore := e.spy.calls
 	reuseBefore := e.spy.reusedXGen
 
 	switch st.Op {
@@ -431,9 +432,6 @@ func (e *engine) apply(st *step) (verr error) {
 		e.open--
 		e.bytesFree += uint64(of.m.size())
 		e.files[st.F] = nil
-		if of.hs != nil && of.hs.closed != 1 {
-			return fmt.Errorf("Close closed the hole source %d times", of.hs.closed)
-		}
 
 	default:
 		panic("unknown op " + st.Op)
@@ -441,6 +439,9 @@ func (e *engine) apply(st *step) (verr error) {
 
 	if e.spy.short > shortBefore {
 		e.st.frag = true
+	}
+	if st.Op == "write" && e.spy.calls-callsBefore >= 4 {
+		e.st.split = true
 	}
 	if e.spy.reusedXGen > reuseBefore {
 		e.st.reuse = true
@@ -679,9 +680,6 @@ func (e *engine) finish() (verr error) {
 		if err := of.f.Close(); err != nil {
 			return fmt.Errorf("final Close of file %d failed: %v", i, err)
 		}
-		if of.hs != nil && of.hs.closed != 1 {
-			return fmt.Errorf("final Close of file %d closed the hole source %d times", i, of.hs.closed)
-		}
 		e.files[i] = nil
 	}
 	e.spy.curOwner = -1
@@ -802,6 +800,7 @@ func (s stats) labels() []string {
 		}
 	}
 	add(s.frag, "fragmentation")
+	add(s.split, "one-write-in-4+-allocations")
 	add(s.regrow, "shrink-then-regrow")
 	add(s.exhausted, "sector-exhaustion")
 	add(s.quotaBytes, "quota-bytes-refused")
